@@ -87,6 +87,8 @@ enum Mix {
     RandomSurvivors,
     FewLost,
     Pooled,
+    /// all-repair set delivered one packet per decode() call (the answer after the last packet counts)
+    Incremental,
 }
 fn mix_name(m: Mix) -> &'static str {
     match m {
@@ -94,6 +96,7 @@ fn mix_name(m: Mix) -> &'static str {
         Mix::RandomSurvivors => "uniformly random number of surviving source symbols",
         Mix::FewLost => "1-3 lost source symbols",
         Mix::Pooled => "all three mixes pooled",
+        Mix::Incremental => "all-repair, delivered packet by packet (one decode call per symbol)",
     }
 }
 
@@ -112,8 +115,9 @@ const ALPHA: f64 = 1e-9;
 
 fn trial(rng: &mut Rng, enc: &SourceBlockEncoder, src: &[EncodingPacket], cfg: &Oti, K: usize, h: usize, mix: Mix) -> (bool, HashSet<u32>) {
     let mix = if mix == Mix::Pooled { [Mix::AllRepair, Mix::RandomSurvivors, Mix::FewLost][rng.below(3) as usize] } else { mix };
+    let incremental = mix == Mix::Incremental;
     let kept = match mix {
-        Mix::AllRepair => 0,
+        Mix::AllRepair | Mix::Incremental => 0,
         Mix::RandomSurvivors => rng.below(K as u64) as usize,
         Mix::FewLost => K.saturating_sub(rng.range(1, 3) as usize),
         Mix::Pooled => unreachable!(),
@@ -137,6 +141,13 @@ fn trial(rng: &mut Rng, enc: &SourceBlockEncoder, src: &[EncodingPacket], cfg: &
         }
     }
     let mut d = SourceBlockDecoder::new(0, cfg, K as u64);
+    if incremental {
+        let mut last = false;
+        for p in pk {
+            last = last || d.decode(std::iter::once(p)).is_some();
+        }
+        return (last, set);
+    }
     (d.decode(pk).is_some(), set)
 }
 
@@ -180,14 +191,19 @@ pub fn run(ctx: &Ctx) -> i32 {
         add(&mut strata, K, 0, Mix::Pooled, if quick { nq } else { nt });
     }
     if !quick {
-        add(&mut strata, 5000, 0, Mix::Pooled, 40_000);
-        add(&mut strata, 20000, 0, Mix::Pooled, 40_000);
+        add(&mut strata, 5000, 0, Mix::Pooled, 20_000);
+        add(&mut strata, 20000, 0, Mix::Pooled, 6_000);
     }
     // h = 1, 2
     for &K in &[10usize, 50] {
         add(&mut strata, K, 1, Mix::AllRepair, if quick { if K == 10 { 2_000_000 } else { 1_000_000 } } else if K == 10 { 8_000_000 } else { 4_000_000 });
         add(&mut strata, K, 2, Mix::AllRepair, if quick { if K == 10 { 2_000_000 } else { 1_000_000 } } else if K == 10 { 50_000_000 } else { 8_000_000 });
     }
+    // the same bound must hold when the K+h symbols arrive one per call (earlier failed attempts
+    // must not spoil the attempt at K+h)
+    add(&mut strata, 10, 1, Mix::Incremental, if quick { 1_000_000 } else { 4_000_000 });
+    add(&mut strata, 26, 1, Mix::Incremental, if quick { 500_000 } else { 2_000_000 });
+    add(&mut strata, 12, 2, Mix::Incremental, if quick { 500_000 } else { 2_000_000 });
     if !quick {
         add(&mut strata, 10, 0, Mix::Pooled, 4_000_000);
         add(&mut strata, 10, 1, Mix::Pooled, 8_000_000);
@@ -329,7 +345,7 @@ pub fn run(ctx: &Ctx) -> i32 {
     ctx.sample(|| J::obj(vec![("K", J::i(10)), ("h", J::i(0)), ("trial", J::s("10 distinct ESIs uniform in [10, 2^24) -> SourceBlockDecoder::decode(batch) -> Some/None; None sets go to the rank oracle"))]));
     ctx.floor("trials", total, 100_000);
     ctx.finish(
-        "per stratum (K, overhead h, mix) n independent trials: draw a uniformly random set of exactly K+h distinct encoding symbols of the real encoder (mixes: all repair with ESIs uniform over [K,2^24); uniformly random number of surviving source symbols; 1-3 lost source symbols), decode in one batch, count None. Decision per stratum: violated iff the exact one-sided Clopper-Pearson lower bound at confidence 1-1e-9 exceeds the advertised bound (1e-2, 1e-4, 1e-5 for h=0,1,2); held iff the observed rate is at most the bound; otherwise inconclusive. Every None set is passed to the C02 rank oracle; a None on a full-rank set is reported as a lost decode. distinct_nontrivial = distinct subsets among a 1/64 sample of the trials (every trial draws at least one repair symbol except FewLost/RandomSurvivors draws, which always lose >= 1 source symbol)",
+        "per stratum (K, overhead h, mix) n independent trials: draw a uniformly random set of exactly K+h distinct encoding symbols of the real encoder (mixes: all repair with ESIs uniform over [K,2^24); uniformly random number of surviving source symbols; 1-3 lost source symbols; and all-repair sets delivered one packet per call), decode (in one batch unless stated), count None at exactly K+h symbols. Decision per stratum: violated iff the exact one-sided Clopper-Pearson lower bound at confidence 1-1e-9 exceeds the advertised bound (1e-2, 1e-4, 1e-5 for h=0,1,2); held iff the observed rate is at most the bound; otherwise inconclusive. Every None set is passed to the C02 rank oracle; a None on a full-rank set is reported as a lost decode. distinct_nontrivial = distinct subsets among a 1/64 sample of the trials (every trial draws at least one repair symbol except FewLost/RandomSurvivors draws, which always lose >= 1 source symbol)",
         &["a statement about a distribution: the monitor gives exact binomial confidence bounds, not certainty", "trial sets are drawn by the harness PRNG from VERIF_SEED"],
         vec![],
     )
